@@ -65,10 +65,10 @@ Proof.
   f_equal. apply (list_eqb_eq Z.eqb); auto. intros x y E. apply Z.eqb_eq; auto.
 Qed.
 
-Definition closed_b (c : Z) : bool :=
-  let l := iter_subclasses c in
+Definition closed_list_b (l : list Z) (c : Z) : bool :=
   nodup_b l && forallb (fun d => zmem d classes) l
   && forallb (fun d => Bool.eqb (zmem d l) (strict_desc_b d c)) classes.
+Definition closed_b (c : Z) : bool := closed_list_b (iter_subclasses c) c.
 
 Lemma closed_all : forallb closed_b classes = true.
 Proof. vm_cast_no_check (eq_refl true). Qed.
@@ -78,24 +78,29 @@ Proof.
   unfold strict_desc_b, strict_descendant. rewrite andb_true_iff, negb_true_iff, Z.eqb_neq, zmem_In. tauto.
 Qed.
 
+Lemma closed_list_sound l c : closed_list_b l c = true ->
+  NoDup l /\ (forall d, In d l <-> strict_descendant d c).
+Proof.
+  unfold closed_list_b. intros H.
+  apply andb_true_iff in H as [H H3]. apply andb_true_iff in H as [H1 H2].
+  split; [apply nodup_b_NoDup; auto|].
+  intros d. destruct (in_dec Z.eq_dec d classes) as [Hd|Hd].
+  - pose proof (forallb_In _ _ H3 d Hd) as E. cbv beta in E. apply eqb_prop in E.
+    rewrite <- zmem_In, E. apply strict_desc_b_iff.
+  - split.
+    + intros Hin. exfalso. apply Hd. apply zmem_In. exact (forallb_In _ _ H2 d Hin).
+    + intros [_ Hin]. exfalso. unfold anc_of in Hin. rewrite zlookup_not_key in Hin; [inversion Hin|].
+      destruct tree_keys as [_ [E _]]. rewrite E. exact Hd.
+Qed.
+
 Lemma subclasses_closed_lemma : forall c, valid_cls c ->
-  NoDup (iter_subclasses c) /\
-  (forall d, In d (iter_subclasses c) <-> strict_descendant d c) /\
-  ~ In c (iter_subclasses c).
+  NoDup (iter_subclasses c) /  (forall d, In d (iter_subclasses c) <-> strict_descendant d c) /  ~ In c (iter_subclasses c).
 Proof.
   intros c Hc. apply classes_In in Hc.
-  pose proof (forallb_In _ _ closed_all c Hc) as H. unfold closed_b in H.
-  apply andb_true_iff in H as [H H3]. apply andb_true_iff in H as [H1 H2].
-  assert (Hiff : forall d, In d (iter_subclasses c) <-> strict_descendant d c).
-  { intros d. destruct (in_dec Z.eq_dec d classes) as [Hd|Hd].
-    - pose proof (forallb_In _ _ H3 d Hd) as E. simpl in E. apply eqb_prop in E.
-      rewrite <- zmem_In, E. apply strict_desc_b_iff.
-    - split.
-      + intros Hin. exfalso. apply Hd. apply zmem_In. exact (forallb_In _ _ H2 d Hin).
-      + intros [_ Hin]. exfalso. unfold anc_of in Hin. rewrite zlookup_not_key in Hin; [inversion Hin|].
-        destruct tree_keys as [_ [E _]]. rewrite E. exact Hd. }
-  split; [apply nodup_b_NoDup; auto|]. split; [exact Hiff|].
-  intros Hin. apply Hiff in Hin. destruct Hin as [Hne _]. congruence.
+  pose proof (forallb_In _ _ closed_all c Hc) as H.
+  apply closed_list_sound in H. destruct H as [A B].
+  split; [exact A|]. split; [exact B|].
+  intros Hin. apply B in Hin. destruct Hin as [Hne _]. congruence.
 Qed.
 
 (* outside the reflected tree a class has no subclasses *)
